@@ -10,7 +10,8 @@
 (*            +inf at 1, NaN outside [0,1]                                 *)
 (*   LS       CDF_{mu,sigma}(mu + sigma z) = CDF_{0,1}(z)                  *)
 (*   Moments  Mean = Mu, Variance = Sigma^2, Bounds symmetric about Mu     *)
-(*   Rand     Rand(src) = Mu + Sigma * (standard normal draw of src)       *)
+(*   Rand     Rand(src) = Mu + Sigma * (standard normal draw of src); with a  *)
+(*            nil source the standardised draws still look standard normal *)
 (*   Delta    DeltaDist{T}: CDF the unit step at T, PDF +inf at T else 0,  *)
 (*            InvCDF = T on [0,1] and NaN outside  (complete specification)*)
 (***************************************************************************)
@@ -59,13 +60,17 @@ Moments == /\ Ev("Moments") /\ LET ev == Trace[l]  mu == V(ev.mu)  sg == V(ev.si
 RandEv == /\ Ev("Rand") /\ LET ev == Trace[l] IN
              RNear(V(ev.x), RAdd(V(ev.mu), RMul(V(ev.sigma), V(ev.z))), RAdd(RAbs(V(ev.mu)), RAbs(RMul(V(ev.sigma), V(ev.z)))), 48)
           /\ last' = None
+\* 2000 draws from the package-level source, standardised with Mu and Sigma: mean within 0.2 (8 standard errors), none beyond 10
+RandNil == /\ Ev("RandNil") /\ LET ev == Trace[l] IN
+              Fin(ev.mean) /\ Fin(ev.hi) /\ RLe(RAbs(V(ev.mean)), RatI(1, 5)) /\ RLe(V(ev.hi), RatI(10, 1))
+           /\ last' = None
 Delta == /\ Ev("Delta") /\ LET ev == Trace[l]  t == V(ev.t) IN
             /\ ev.cdf.c = "fin" /\ V(ev.cdf) = (IF RLe(t, V(ev.x)) THEN One ELSE Zero)
             /\ IF V(ev.x) = t THEN ev.pdf.c = "+inf" ELSE (ev.pdf.c = "fin" /\ ev.pdf.d.s = 0)
             /\ IF ev.p.c = "fin" /\ ev.p.d.s >= 0 /\ RLe(V(ev.p), One) THEN (Fin(ev.inv) /\ V(ev.inv) = t) ELSE ev.inv.c = "nan"
          /\ last' = None
 Reset == Ev("Reset") /\ last' = None
-Next == CdfPt \/ Sym \/ PdfPt \/ Inv \/ LS \/ Moments \/ RandEv \/ Delta \/ Reset
+Next == CdfPt \/ Sym \/ PdfPt \/ Inv \/ LS \/ Moments \/ RandEv \/ RandNil \/ Delta \/ Reset
 Spec == Init /\ [][Next]_vars
 Accepted == TLCGet("stats").diameter - 1 = Len(Trace)
 =============================================================================
